@@ -3,19 +3,32 @@ import subprocess
 from props.bngen import hx
 
 TRUSTED = [
-    "specification: affine chord-and-tangent arithmetic of Spec/Curve.lean and double-and-add, executed by the compiled Lean driver",
-    "class C in this version: the coordinate-system formulas and the multiplication algorithms are compared with the specification on "
-    "every run (all variants by name, all three input representations); the algorithm-level theorems are over the abstract group",
-    "curve parameters (p, a, b, G, n, h) are read from the running library; generator on curve and n*G = O are evaluated by the driver, the "
-    "source tables are checked in C18",
+    "specification: affine chord-and-tangent arithmetic of Spec/Curve.lean and double-and-add, executed by the compiled Lean driver; for the "
+    "table lines (eptab) and the arbitrary-table lines (epfixt) the Jacobian evaluator of Spec/CurveFast.lean (proved to represent the affine law)",
+    "class A (model mirrors the C function, theorem model = k*P resp. sum k_i*P_i for all integer scalars over an abstract commutative group, "
+    "model executed on every line over Jacobian arithmetic with the recodings of Model/Rec.lean at the C buffer capacities): ep_mul_basic, dig, "
+    "slide, monty, lwnaf (plain and GLV), lwreg (plain), gen, fix_basic, fix_lwnaf, fix_combs (plain and endomorphism), fix_combd, ep_mul_fix, "
+    "ep_mul_sim_basic, trick, inter (plain and GLV), joint, gen, ep_mul_sim_lot (plain, GLV n <= 10, GLV buckets n > 10), ep_mul_sim_dig; the "
+    "integer model of bn_rec_glv (k0 + k1*lambda = k mod n proved from the lattice rows; rows checked on G for every selected curve)",
+    "executed by the driver but not proved: ep_mul_reg_glv (ep_mul_lwreg on endomorphism curves)",
+    "class C: ep_mul_cof, ep_psi (defining equations only), ep_norm, ep_cmp, ep_on_curve, point encodings",
+    "the add/dbl formulas are translated from the C text on every run (tie T) and proved equal to the group law; the multiplication models run "
+    "over the group law, not over the translated formulas",
+    "curve parameters (p, a, b, G, n, h), GLV data (beta, v1, v2), RLC_WIDTH, RLC_DEPTH, RLC_FP_BITS are read from the running library; generator on "
+    "curve and n*G = O are evaluated by the driver, the source tables are checked in C18",
+    "harness/ops_ep.c: eptab prints every entry of a precomputation table; epfixt runs ep_mul_fix_* on a caller-supplied table (one token, ';' separated)",
 ]
-ASSUMPTIONS = ["points presented to the scalar multiplications lie in the prime-order group (cofactor 1 on every curve of the base configuration)"]
+ASSUMPTIONS = ["points presented to the scalar multiplications lie in the prime-order group (cofactor 1 on every curve of the base configuration)",
+               "ep_mul_combs_endom: no GLV sub-scalar of the selected curves exceeds l*d bits (the code drops the sign on that path; hypothesis hs0/hs1 of "
+               "mul_fix_combs_endom_correct); the 2*RLC_FP_DIGS+1-digit two's-complement arithmetic of bn_rec_glv does not overflow (integer model)"]
 RULE = ("points 0, G, -G, small multiples, random multiples, equal/opposite pairs, each presented affine / projective / Jacobian with random z; "
         "scalars 0, ±1, 2, n-1, n, n+1, multiples of n, negative, longer than n, sparse/dense/alternating, half-order boundary values; "
-        "every add/dbl/mul/mul_fix/mul_sim variant by name; non-trivial = distinct line whose result is not the identity")
+        "comb-structured scalars (single bits at row/column boundaries, full/empty columns and rows, empty top column, all ones), lambda-structured "
+        "scalars a + b*lambda with zero/tiny/negative/half-length parts; every add/dbl/mul/mul_fix/mul_sim variant by name; every precomputation table; "
+        "fixed-base loops on arbitrary tables; non-trivial = distinct line whose result is not the identity")
 
 GENERATED = ["ep"]
-EXTRA_THEOREM_MODULES = ["RelicVerif.Lemmas.EpFormulas"]
+EXTRA_THEOREM_MODULES = ["RelicVerif.Lemmas.EpFormulas", "RelicVerif.Lemmas.EpComb", "RelicVerif.Lemmas.EpSim"]
 
 CURVES = {"base": [12, 13, 14, 15, 23, 24]}   # NIST_P256, BSI_P256, SECG_K256, SM2_P256, BN_P256, SM9_P256
 
@@ -23,12 +36,28 @@ ADD = ["add", "add_basic", "add_projc", "add_jacob", "sub"]
 DBL = ["dbl", "dbl_basic", "dbl_projc", "dbl_jacob"]
 MUL = ["mul", "basic", "slide", "monty", "lwnaf", "lwreg", "gen", "dig", "fix_basic", "fix_combs", "fix_combd", "fix_lwnaf", "fix_"]
 SIM = ["sim", "basic", "trick", "inter", "joint", "gen"]
+TABS = ["basic", "combs", "combd", "lwnaf"]
 
 
 class Cv:
     def __init__(self, kv):
         self.p = int(kv["p"], 16); self.a = int(kv["a"], 16); self.b = int(kv["b"], 16)
         self.g = (int(kv["gx"], 16), int(kv["gy"], 16)); self.n = int(kv["n"], 16); self.h = int(kv["h"], 16)
+        self.endom = kv.get("endom") == "1"
+        self.beta = int(kv["beta"], 16) if "beta" in kv else None
+        self.depth = int(kv.get("depth", "4")); self.width = int(kv.get("width", "4"))
+        self._lam = None
+
+    def lam(self):
+        """eigenvalue of psi(x, y) = (beta x, y) on the order-n group: the root of x^2 + x + 1 mod n with lam*G = psi(G)"""
+        if self._lam is None and self.endom and self.beta is not None:
+            n = self.n
+            r = _sqrt_mod((-3) % n, n)
+            if r is not None:
+                for cand in ((-1 + r) * pow(2, -1, n) % n, (-1 - r) * pow(2, -1, n) % n):
+                    if self.mul(self.g, cand) == (self.beta * self.g[0] % self.p, self.g[1]):
+                        self._lam = cand
+        return self._lam
 
     def add(self, P, Q):
         p = self.p
@@ -56,6 +85,26 @@ class Cv:
             P = self.add(P, P)
             k >>= 1
         return R
+
+
+def _sqrt_mod(a, p):
+    """Tonelli-Shanks"""
+    if pow(a, (p - 1) // 2, p) != 1:
+        return None
+    q, s_ = p - 1, 0
+    while q % 2 == 0:
+        q //= 2; s_ += 1
+    z = 2
+    while pow(z, (p - 1) // 2, p) != p - 1:
+        z += 1
+    m, c, t, r = s_, pow(z, q, p), pow(a, q, p), pow(a, (q + 1) // 2, p)
+    while t != 1:
+        i, t2 = 0, t
+        while t2 != 1:
+            t2 = t2 * t2 % p; i += 1
+        b = pow(c, 1 << (m - i - 1), p)
+        m, c, t, r = i, b * b % p, t * b * b % p, r * b % p
+    return r
 
 
 def ptok(rng, cv, P, rep="P"):
@@ -91,12 +140,56 @@ def point(rng, cv, pool):
     return rng.choice(pool)
 
 
-NCLASS = 12
+NCLASS = 14
 
 
-def scalar(rng, n, k=None):
+def comb_scalar(rng, cv):
+    """scalars structured along the comb: l columns, depth rows (l = ceil(bits/depth), halved on endomorphism curves; the double
+    comb splits the columns at e = ceil(l/2)): single bits at row boundaries, full / empty columns, empty top column, all ones"""
+    bits = cv.n.bit_length()
+    d = cv.depth
+    l = -(-bits // d)
+    e = -(-l // 2)
+    j = rng.below(d)
+    i = rng.choice([0, 1, e - 1, e, e + 1, l - 2, l - 1])
+    fam = rng.below(8)
+    if fam == 0:
+        k = 1 << (j * l + i)                        # one bit: row j, column i
+    elif fam == 1:
+        k = sum(1 << (jj * l + i) for jj in range(d))    # a full column
+    elif fam == 2:
+        k = ((1 << l) - 1) << (j * l)                # a full row
+    elif fam == 3:
+        k = (1 << (l - 1)) - 1                       # rows above 0 empty, top column empty
+    elif fam == 4:
+        k = sum(((1 << (l - 1)) - 1) << (jj * l) for jj in range(d))   # top column empty in every row
+    elif fam == 5:
+        k = (1 << (j * l + i)) - 1
+    elif fam == 6:
+        k = sum(1 << (jj * l + ii) for jj in range(d) for ii in range(0, l, 2))   # alternating columns
+    else:
+        k = (1 << (d * l)) - 1                       # all ones over the whole comb (reduced modulo n by the routine)
+    return k % cv.n if rng.chance(3, 4) else k
+
+
+def glv_scalar(rng, cv):
+    """k = a + b*lambda mod n with zero / tiny / negative / half-length sub-scalars in either position"""
+    lam = cv.lam()
+    if lam is None:
+        return comb_scalar(rng, cv)
+    half = cv.n.bit_length() // 2
+    def part():
+        return rng.choice([0, 1, -1, 2, -2, 3, (1 << (half - 1)) - 1, -(1 << (half - 1)), 1 << (half - 2), rng.bits(half - 1), -rng.bits(half - 1), rng.bits(64), rng.bits(8)])
+    return (part() + part() * lam) % cv.n
+
+
+def scalar(rng, n, k=None, cv=None):
     if k is None:
-        k = rng.below(16)
+        k = rng.below(20)
+    if k == 12 and cv is not None:
+        return comb_scalar(rng, cv)
+    if k == 13 and cv is not None:
+        return glv_scalar(rng, cv)
     if k == 0:
         return 0
     if k == 1:
@@ -129,15 +222,27 @@ def gen_lines(rng, cv, count):
     # systematic part: every multiplication variant meets every scalar class at least once per curve
     for v in MUL:
         for cls in range(NCLASS):
-            kk = scalar(rng, cv.n, cls)
+            kk = scalar(rng, cv.n, cls, cv)
             if v == "dig":
                 kk = abs(kk) & ((1 << 64) - 1)
             P = rng.choice(pool + [cv.g])
             out.append("epm %s %d %s %s" % (v, rng.below(2), ptok(rng, cv, P, "" if v.startswith("fix") else "P"), hx(kk)))
+    # the precomputation tables themselves (every entry), and the fixed-base loops on caller-supplied tables of arbitrary points:
+    # the column / digit extraction is tied to the model independently of what a precomputation would store
+    small = [cv.mul(cv.g, j) for j in (2, 3, 5, cv.n - 1)]
+    for v in TABS:
+        for P in (cv.g, rng.choice(pool), None):
+            out.append("eptab %s %s" % (v, ptok(rng, cv, P, "")))
+    for v, tl in (("combs", 1 << cv.depth), ("combd", 2 << cv.depth), ("lwnaf", 1 << (cv.depth - 2))):
+        for cls in ([0, 1, 2, 3, 4, 5, 8, 11, 12, 12, 12, 12, 13, 13] if v != "lwnaf" else [1, 2, 3, 5, 11, 13]):
+            tab = [rng.choice(pool + small + [None, cv.g]) for _ in range(tl)]
+            if rng.chance(1, 3):
+                tab = tab[:rng.below(tl + 1)]            # missing entries are the identity
+            out.append("epfixt %s %s %s" % (v, hx(scalar(rng, cv.n, cls, cv)), ";".join(ptok(rng, cv, T, "") for T in tab) or "inf"))
     for v in SIM:
         for cls in range(NCLASS):
-            out.append("eps %s %s %s %s %s" % (v, ptok(rng, cv, rng.choice(pool)), hx(scalar(rng, cv.n, cls)),
-                                              ptok(rng, cv, rng.choice(pool)), hx(scalar(rng, cv.n, (cls * 5 + 3) % NCLASS))))
+            out.append("eps %s %s %s %s %s" % (v, ptok(rng, cv, rng.choice(pool)), hx(scalar(rng, cv.n, cls, cv)),
+                                              ptok(rng, cv, rng.choice(pool)), hx(scalar(rng, cv.n, (cls * 5 + 3) % NCLASS, cv))))
     for _ in range(count):
         k = rng.below(100)
         if k < 22:
@@ -160,20 +265,20 @@ def gen_lines(rng, cv, count):
         elif k < 72:
             v = rng.choice(MUL)
             P = point(rng, cv, pool)
-            kk = scalar(rng, cv.n)
+            kk = scalar(rng, cv.n, None, cv)
             if v == "dig":
                 kk = abs(kk) & ((1 << 64) - 1)
             out.append("epm %s %d %s %s" % (v, rng.below(2), ptok(rng, cv, P, "" if v.startswith("fix") else "P"), hx(kk)))
         elif k < 92:
             v = rng.choice(SIM)
-            out.append("eps %s %s %s %s %s" % (v, ptok(rng, cv, point(rng, cv, pool)), hx(scalar(rng, cv.n)),
-                                              ptok(rng, cv, point(rng, cv, pool)), hx(scalar(rng, cv.n))))
+            out.append("eps %s %s %s %s %s" % (v, ptok(rng, cv, point(rng, cv, pool)), hx(scalar(rng, cv.n, None, cv)),
+                                              ptok(rng, cv, point(rng, cv, pool)), hx(scalar(rng, cv.n, None, cv))))
         else:
             # 10/11 is the switch between the windowed and the bucket branch of ep_mul_sim_lot on endomorphism curves
             n_ = rng.choice([0, 1, 2, 3, 5, 10, 11, 12, 17])
             toks = []
             for _ in range(n_):
-                toks += [ptok(rng, cv, point(rng, cv, pool)), hx(scalar(rng, cv.n))]
+                toks += [ptok(rng, cv, point(rng, cv, pool)), hx(scalar(rng, cv.n, None, cv))]
             o = rng.choice(["epl", "epl", "epd"])
             if n_ > 0 and rng.chance(1, 2):      # result written over one of the inputs
                 out.append("%sa %d %d %s" % (o, rng.choice([0, n_ - 1, rng.below(n_)]), n_, " ".join(toks)))
@@ -237,7 +342,7 @@ def matches_finding(f, r):
     if r["got"] != "err":
         return False
     if pred == "fix_identity_base":
-        return t[0] == "epm" and t[1].startswith("fix") and t[3] == "inf"
+        return (t[0] == "epm" and t[1].startswith("fix") and t[3] == "inf") or (t[0] == "eptab" and t[2] == "inf")
     if pred == "sim_table_identity" and t[0] == "eps" and t[1] in ("trick", "joint") and r.get("context"):
         cv = CVS.get(int(r["context"].split()[1]))
         if cv is None:
